@@ -98,7 +98,22 @@ type c11In struct {
 	// the case runs on one processor (GOMAXPROCS 1): every goroutine the requests start shares it, so anything recycled per
 	// processor (sync.Pool) goes straight from one request to the next
 	OneP bool `json:"one_p,omitempty"`
+	// how the request gets out: "" = built by Runtime.CreateHttpRequest and read back by the harness; "submit" = sent by the real
+	// Runtime.Submit through a RoundTripper of the harness that records the header it is handed and reads the body to its end,
+	// as a transport does. Debug = Runtime.Debug (request logging: SetDebug(true), SWAGGER_DEBUG / DEBUG in the environment) is on
+	// for that call. What the transport receives has to be what the property says, logging or not.
+	Via   string `json:"via,omitempty"`
+	Debug bool   `json:"debug,omitempty"`
 }
+
+type c11RTFunc func(*http.Request) (*http.Response, error)
+
+func (f c11RTFunc) RoundTrip(q *http.Request) (*http.Response, error) { return f(q) }
+
+type c11NoLog struct{}
+
+func (c11NoLog) Printf(string, ...interface{}) {}
+func (c11NoLog) Debugf(string, ...interface{}) {}
 
 type c11Part struct {
 	Disp        Bs   `json:"disp"`
@@ -167,6 +182,7 @@ func (c11) Rule() string {
 		"Upload sources end their Reads in three ways (a quarter with the last bytes TOGETHER with io.EOF, a twelfth with a (0, nil) Read before every chunk; enumerated x the lengths around the sniffing window x chunkings x plain / NamedReader sources); " +
 		"two file names in five carry an extension (known to mime.TypeByExtension, known to system tables only, unknown, odd spellings; enumerated x text / unrecognised binary / PNG / PDF / HTML contents: the type comes from the declaration or the content, never from the name); " +
 		"one multipart / form case in eight quotes an earlier request of the same process: a request of the same shape is sent first on the same Runtime and its dump (Content-Type header with the boundary, body as sent) is appended to the first upload or form value. " +
+		"One case in four is not read back from CreateHttpRequest but sent by the real Runtime.Submit through a recording transport, two thirds of these with request logging (Runtime.Debug) on; enumerated: every reader type x logging off/on x auth writer absent / not asking / asking, multipart, url-encoded, value payloads under every media type, streamed bodies above 1 MiB. " +
 		"Non-trivial: a request that was built without error and carries a body."
 }
 
@@ -269,6 +285,12 @@ func c11Norm(in c11In) c11In {
 	}
 	if in.BuiltAfter < 0 || in.BuiltAfter > 8 {
 		in.BuiltAfter = 0
+	}
+	if in.Via != "submit" || in.Kind != "body" {
+		in.Via, in.Debug = "", false
+	}
+	if in.Via == "submit" {
+		in.BuiltAfter = 0 // Submit builds and sends in one go: nothing can be built in between
 	}
 	if in.BuiltBefore == 0 && in.BuiltAfter == 0 {
 		in.OneP = false
@@ -992,6 +1014,50 @@ func (c11) Run(inAny any) any {
 	var req *http.Request
 	var err error
 	done := make(chan struct{})
+	if in.Via == "submit" {
+		// the real Submit; the transport of the harness records what it is handed and reads the body to its end
+		var seen *http.Request
+		var seenBody []byte
+		rt.Transport = c11RTFunc(func(q *http.Request) (*http.Response, error) {
+			seen = q
+			if q.Body != nil {
+				b, e := io.ReadAll(q.Body)
+				_ = q.Body.Close()
+				if e != nil {
+					return nil, fmt.Errorf("transport: reading the request body: %w", e)
+				}
+				seenBody = b
+				if seenBody == nil {
+					seenBody = []byte{}
+				}
+			}
+			return &http.Response{StatusCode: 204, Status: "204 No Content", Proto: "HTTP/1.1", ProtoMajor: 1, ProtoMinor: 1,
+				Header: http.Header{}, Body: http.NoBody, Request: q}, nil
+		})
+		rt.Debug = in.Debug
+		rt.SetLogger(c11NoLog{})
+		op.Reader = runtime.ClientResponseReaderFunc(func(runtime.ClientResponse, runtime.Consumer) (interface{}, error) { return nil, nil })
+		go func() {
+			defer close(done)
+			obs.Panicked, obs.Panic = recoverTo(func() { _, err = rt.Submit(op) })
+		}()
+		select {
+		case <-done:
+		case <-time.After(30 * time.Second):
+			obs.Err, obs.ErrText = 2, "watchdog: Submit did not return"
+			return obs
+		}
+		if !obs.Panicked && err == nil {
+			if seen == nil {
+				obs.Err, obs.ErrText = 2, "Submit succeeded without handing a request to the transport"
+				return obs
+			}
+			req = &http.Request{Header: seen.Header}
+			if seenBody != nil {
+				req.Body = io.NopCloser(bytes.NewReader(seenBody))
+			}
+		}
+	} else {
 	go func() {
 		defer close(done)
 		obs.Panicked, obs.Panic = recoverTo(func() { req, err = rt.CreateHttpRequest(op) })
@@ -1001,6 +1067,7 @@ func (c11) Run(inAny any) any {
 	case <-time.After(20 * time.Second):
 		obs.Err, obs.ErrText = 2, "watchdog: CreateHttpRequest did not return"
 		return obs
+	}
 	}
 	if obs.Panicked {
 		return obs
@@ -1426,6 +1493,12 @@ func (c11) Category(inAny any, obsAny any) (string, bool) {
 	if in.OneP {
 		bigTag += "/one-processor"
 	}
+	if in.Via == "submit" {
+		bigTag += "/via-submit"
+		if in.Debug {
+			bigTag += "+debug"
+		}
+	}
 	return kind + bigTag + "/" + auth + "/" + outcome, outcome == "ok" && obs.SentLen > 0
 }
 
@@ -1686,7 +1759,68 @@ func (c11) Gen(r *rand.Rand, tier string, i int) any {
 		}
 		in.OneP = r.Intn(2) == 0
 	}
+	// sent by the real Submit (one case in four), with request logging on for two in three of them
+	if r.Intn(4) == 0 {
+		in.Via, in.Debug = "submit", r.Intn(3) > 0
+	}
 	return c11Norm(in)
+}
+
+// c11EnumSubmit: requests sent by the real Runtime.Submit, with request logging off and on: every dynamic type of a reader payload
+// (fresh, or handed over partly read) x the auth writer absent / not asking / asking, multipart documents, url-encoded forms,
+// value payloads under every media type, no payload, and streamed bodies of more than a MiB.
+func c11EnumSubmit(r *rand.Rand) []any {
+	var out []any
+	add := func(in c11In, dbg bool) {
+		in.Kind, in.Via, in.Debug = "body", "submit", dbg
+		out = append(out, c11Norm(in))
+	}
+	for _, dbg := range []bool{false, true} {
+		for _, pl := range []string{"reader", "readcloser"} {
+			types := c11ReaderTypes
+			if pl == "readcloser" {
+				types = c11ReadCloserTypes
+			}
+			for ti, rt := range types {
+				for _, auth := range []int{-1, 0, 1} {
+					for k, n := range []int{1, 3000} {
+						add(c11In{Method: []string{"POST", "PUT"}[k], Media: "application/octet-stream", Payload: pl, RType: rt,
+							Content: Bs(c11Bytes(r, n, k == 1)), Auth: auth}, dbg)
+					}
+				}
+				add(c11In{Method: "PATCH", Media: "application/json", Payload: pl, RType: rt, Consumed: Bs(c11Bytes(r, 4, false)),
+					SeekTo: ti%2 == 0, Content: Bs(c11Bytes(r, 40, false)), Auth: -1}, dbg)
+				add(c11In{Method: "POST", Media: "application/octet-stream", Payload: pl, RType: rt, Content: "", Auth: -1}, dbg)
+			}
+		}
+		png := Bs("image/png")
+		files := []c11FileField{{Name: "up", Files: []c11File{{Name: "dir/a.txt", Chunks: []Bs{"plain ", "text"}}, {Name: "b.png", Chunks: []Bs{"\x89PNG\r\n\x1a\n....."}, Declared: &png}}},
+			{Name: "other", Files: []c11File{{Name: "c.bin", Chunks: []Bs{Bs(c11Bytes(r, 700, true))}, Src: "named"}}}}
+		form := []c11Field{{Name: "note", Values: []Bs{"v 1", "v&2"}}, {Name: "k", Values: []Bs{""}}}
+		for _, auth := range []int{-1, 0, 1} {
+			add(c11In{Method: "POST", Media: "multipart/form-data", Payload: "nil", Auth: auth, Files: files}, dbg)
+			add(c11In{Method: "POST", Media: "multipart/form-data", Payload: "nil", Auth: auth, Form: form}, dbg)
+			add(c11In{Method: "PUT", Media: "application/json", Payload: "reader", Content: "ignored", Auth: auth, Form: form, Files: files}, dbg)
+			add(c11In{Method: "POST", Media: "multipart/form-data", Payload: "nil", Auth: auth, BuiltBefore: 1,
+				Files: []c11FileField{{Name: "file", Files: []c11File{{Name: "f.bin", Chunks: []Bs{Bs(c11Bytes(r, 513, false))}, Reads: "eof-with-data"}}}}}, dbg)
+			add(c11In{Method: "POST", Media: "application/x-www-form-urlencoded", Payload: "nil", Auth: auth, Form: form}, dbg)
+			add(c11In{Method: "POST", Media: "application/json", Payload: "nil", Auth: auth}, dbg)
+		}
+		seenMedia := map[string]bool{}
+		for mi, m := range c11Medias {
+			if seenMedia[m] {
+				continue
+			}
+			seenMedia[m] = true
+			add(c11In{Method: "POST", Media: Bs(m), Payload: "value", VType: c11ValueTypes[mi%len(c11ValueTypes)], Content: "payload text", Auth: []int{-1, 1}[mi%2]}, dbg)
+		}
+		for ki, k := range []struct{ pl, rt string }{{"reader", ""}, {"readcloser", "os.File"}, {"reader", "bytes.Buffer"}} {
+			add(c11In{Method: "POST", Media: "application/octet-stream", Payload: k.pl, RType: k.rt, BigLen: 1<<20 + 1 + ki, BigSeed: 40 + ki, Auth: []int{-1, -1, 1}[ki]}, dbg)
+		}
+		add(c11In{Method: "POST", Media: "multipart/form-data", Payload: "nil", Auth: -1,
+			Files: []c11FileField{{Name: "file", Files: []c11File{{Name: "dir/big.bin", BigLen: 1<<20 + 300, BigSeed: 9, BigChunk: 32 << 10}}}}}, dbg)
+	}
+	return out
 }
 
 // c11Big70k: the case has an upload of tens of kilobytes
@@ -1953,6 +2087,7 @@ func (c11) Enumerate(tier string) []any {
 		}
 	}
 	out = append(out, c11EnumBig(tier)...)
+	out = append(out, c11EnumSubmit(r)...)
 	// escapeQuotes / filepath.Base on every single byte and on byte pairs with the special ones
 	for c := 0; c < 256; c++ {
 		out = append(out, c11In{Kind: "escape", S: Bs([]byte{byte(c)}), Auth: -1})
